@@ -180,10 +180,20 @@ def check(P, R):
             mcl = rd.closure_nodes(msg_arg, n) if msg_arg is not None else []
             has_split = any(isinstance(y, ast.Call) and call_attr(y) in ('split', 'partition', 'rpartition') for y in mcl)
             decoded_first = any(isinstance(y, ast.Call) and (dotted(y.func) or '').endswith(('b64decode', 'decodebytes', 'a85decode', 'unhexlify')) for y in mcl)
-            okm = has_split and not decoded_first
+            # ... and it is that very piece: re-padded, stripped or otherwise normalised text lets several received cookies verify against one signature
+            altered = None
+            if isinstance(msg_arg, ast.Name):
+                hn_ = g.node_of_stmt(hm)
+                for d_ in rd.at(hn_[0] if hn_ else n, msg_arg.id):
+                    if d_.kind == 'aug' or (d_.kind == 'assign' and d_.value is not None and not (
+                            isinstance(d_.value, ast.Subscript) or (isinstance(d_.value, ast.Call) and call_attr(d_.value) in ('split', 'partition', 'rpartition')))):
+                        altered = d_
+            okm = has_split and not decoded_first and altered is None
             R.ob('C15.b', dec, hm, okm, text=f'HMAC message = {short(msg_arg)}', detail='' if okm else
                  ('the payload is base64-decoded before it is authenticated: several altered texts decode to the same bytes and still verify'
-                  if decoded_first else 'the authenticated message does not come from the split of the received cookie'),
+                  if decoded_first else (f'`{short(altered.stmt)}` changes the payload text between the split and the signature check: what is authenticated is a normalised '
+                                         f'form, so a cookie whose payload was altered in the bytes the normalisation restores (its trailing `=` padding cut off) still verifies '
+                                         f'and is unpickled' if altered is not None else 'the authenticated message does not come from the split of the received cookie')),
                  why='a cookie altered in any payload byte must read as absent')
             okk = key_arg is not None and any(isinstance(y, ast.Name) and y.id == dec.params[1] for y in rd.closure_nodes(key_arg, n))
             R.ob('C15.b', dec, hm, okk, text=f'HMAC key = {short(key_arg)}', detail='' if okk else 'the HMAC key is not the caller\'s secret')
@@ -401,6 +411,23 @@ def _parents_until(node):
 
 def check_get_cookie(P, R):
     f = P.func('ombott.request_pkg.props_mixin:PropsMixin.get_cookie')
+    # reading a cookie leaves the parsed jar as it is: the jar is memoised for the whole request, and what one read removes no later read finds
+    MUT_ = {'pop', 'popitem', 'clear', 'update', 'setdefault', '__setitem__', '__delitem__'}
+    for st_ in walk_shallow(f.node):
+        hit_ = None
+        if isinstance(st_, ast.Call) and isinstance(st_.func, ast.Attribute) and st_.func.attr in MUT_:
+            ns_ = f.cfg.node_of_stmt(st_)
+            if ns_ and any(isinstance(x, ast.Attribute) and dotted(x) == 'self.cookies' for x in f.rd.closure_nodes(st_.func.value, ns_[0])):
+                hit_ = st_
+        elif isinstance(st_, (ast.Assign, ast.Delete)):
+            for t_ in st_.targets:
+                if isinstance(t_, ast.Subscript) and 'cookies' in src(t_.value):
+                    hit_ = st_
+        if hit_ is not None:
+            R.ob('C15.e', f, hit_, False, text='get_cookie only reads the jar', detail=
+                 f'`{short(hit_)}` changes the cookie jar that is cached for the whole request: after one read that fails verification (a wrong or rotated secret) the cookie '
+                 f'is gone, and a second read with the right secret - `get_cookie(n, secret=NEW) or get_cookie(n, secret=OLD)` - finds nothing',
+                 why='a signed cookie read with the same secret returns the value that was set', key_extra='read-mutates-jar')
     g, rd = f.cfg, f.rd
     key_p, default_p, secret_p = f.params[1], f.params[2], f.params[3]
     calls = [c for c in walk_shallow(f.node) if isinstance(c, ast.Call) and dotted(c.func) == 'cookie_decode']
@@ -544,13 +571,36 @@ def check_get_cookie(P, R):
         ok = isinstance(a0, ast.Tuple) and len(a0.elts) == 2 and src(a0.elts[0]) == sc.params[1] and src(a0.elts[1]) == sc.params[2] \
             and isinstance(a1, ast.Name) and a1.id == 'secret'
         R.ob('C15.e', sc, c, ok, detail='' if ok else 'set_cookie does not sign the (name, value) pair with the given secret')
+    # writer and reader agree on *when* a cookie is signed: both decide by the truth of the secret, or both by `is not None`
+    def secret_mode(fn, sink_name):
+        modes = set()
+        for c in [x for x in walk_shallow(fn.node) if isinstance(x, ast.Call) and dotted(x.func) == sink_name]:
+            ns_ = fn.cfg.node_of_stmt(c)
+            for (e_, holds_, _t) in (T.guard_atoms(fn, ns_[0]) if ns_ else []):
+                if isinstance(e_, ast.Name) and e_.id == 'secret' and holds_:
+                    modes.add('truthy')
+                cp_ = compare_parts(e_)
+                if cp_ and isinstance(cp_[0], ast.Name) and cp_[0].id == 'secret' and is_const(cp_[2], None) and \
+                        ((cp_[1] is ast.IsNot and holds_) or (cp_[1] is ast.Is and not holds_)):
+                    modes.add('not-None')
+        return modes
+    gm_ = secret_mode(P.func('ombott.request_pkg.props_mixin:PropsMixin.get_cookie'), 'cookie_decode')
+    sm_ = secret_mode(sc, 'cookie_encode')
+    if gm_ and sm_:
+        okm_ = gm_ == sm_
+        R.ob('C15.e', sc, ec[0], okm_, text=f'set_cookie signs when the secret is {sorted(sm_)}, get_cookie verifies when it is {sorted(gm_)}', detail='' if okm_ else
+             f'set_cookie signs when the secret is {sorted(sm_)} while get_cookie verifies when it is {sorted(gm_)}: with an empty secret (\'\' / b\'\') the cookie is written '
+             f'signed and read back raw - the caller gets the `!signature?payload` text instead of the value it set',
+             why='a cookie set with a secret reads back as the value that was set', key_extra='secret-mode')
+    else:
+        R.undecided('C15.e', sc, ec[0], 'when a cookie is signed', 'the tests on `secret` in front of cookie_encode / cookie_decode have no recogniser')
 
 
-def check_cookie_memo_invalidation(P, R, rid, why='a cookie is read back from the request that returns it: the parsed jar follows the Cookie header of the request'):
-    """request.cookies is memoised in the environ; the memo is dropped whenever an HTTP_* key is written through the request: every store made by
-    `__setitem__` is followed by the change event, and the listener maps header keys to the `cookies` memo"""
+def check_env_store_emits(P, R, rid, why, consequence):
+    """every store `__setitem__` makes into the environ is followed by the change event (also for a key that was not there before: the views derived from a
+    missing key are cached too - an empty query, an empty jar)"""
     si = P.func('ombott.request_pkg.request:BaseRequest.__setitem__')
-    g, rd = si.cfg, si.rd
+    g = si.cfg
     stores = [n for n in g.nodes if n.kind == 'stmt' and isinstance(n.ast, ast.Assign) and any(isinstance(t, ast.Subscript) and src(t.slice) == si.params[1] for t in n.ast.targets)]
     emits = [g.node_of_stmt(c)[0] for c in walk_shallow(si.node) if isinstance(c, ast.Call) and call_attr(c) == 'emit' and c.args and is_const(c.args[0], 'env_changed')]
     R.require(stores, 'BaseRequest.__setitem__: store into the environ not found')
@@ -558,8 +608,14 @@ def check_cookie_memo_invalidation(P, R, rid, why='a cookie is read back from th
         ok = bool(emits) and all(m_ in emits or g.must_pass(m_, g.exit, emits) for (m_, lab_) in n.succ if lab_ != 'exc')
         R.ob(rid, si, n.ast, ok, text=f'`{short(n.ast)}` is always followed by emit("env_changed", ..)', detail='' if ok else
              f'after `{short(n.ast)}` the change event is not emitted on every path (e.g. only for keys that were already present): values derived earlier from the '
-             f'environ - the parsed cookie jar, the headers - stay cached, so a Cookie header written through the request is not what get_cookie() reads',
+             f'environ - {consequence}',
              why=why, key_extra='emit-after-store')
+
+
+def check_cookie_memo_invalidation(P, R, rid, why='a cookie is read back from the request that returns it: the parsed jar follows the Cookie header of the request'):
+    """request.cookies is memoised in the environ; the memo is dropped whenever an HTTP_* key is written through the request: every store made by
+    `__setitem__` is followed by the change event, and the listener maps header keys to the `cookies` memo"""
+    check_env_store_emits(P, R, rid, why, 'the parsed cookie jar, the headers - stay cached, so a Cookie header written through the request is not what get_cookie() reads')
     oc = P.func('ombott.request_pkg.request:BaseRequest._on_env_changed')
     from .c18 import listener_drops
     ld = listener_drops(P, 'HTTP_')
